@@ -10,7 +10,7 @@ use crate::{
     Complement, ComplementMut, Reverse, ReverseComplement, ReverseComplementMut, ReverseMut,
 };
 
-use crate::Bs;
+use crate::{Bs, Bv};
 use bitvec::field::BitField;
 
 use core::fmt;
@@ -148,9 +148,12 @@ impl<A: Codec> ToOwned for SeqSlice<A> {
     type Owned = Seq<A>;
 
     fn to_owned(&self) -> Self::Owned {
+        let mut bv: Bv = self.bs.into();
+        // copying a bit slice keeps its head offset; the raw image must start at bit 0
+        bv.force_align();
         Seq {
             _p: PhantomData,
-            bv: self.bs.into(),
+            bv,
         }
     }
 }
@@ -172,6 +175,7 @@ impl<A: Codec> BitAnd for &SeqSlice<A> {
 
     fn bitand(self, rhs: Self) -> Self::Output {
         let mut bv = self.bs.to_bitvec();
+        bv.force_align();
         bv &= &rhs.bs;
         Seq::<A> {
             bv,
@@ -185,6 +189,7 @@ impl<A: Codec> BitOr for &SeqSlice<A> {
 
     fn bitor(self, rhs: Self) -> Self::Output {
         let mut bv = self.bs.to_bitvec();
+        bv.force_align();
         bv |= &rhs.bs;
 
         Seq::<A> {
